@@ -301,6 +301,24 @@ func c01Journey(rep *explore.Report, w *world.World, r int32, s1, s2 []int32, po
 				rep.Violation("C01", "controller-error", fmt.Sprintf("%s (%s): reconcile failed: err=%v panic=%v", label, phase, rec.Err, rec.Panic), nil)
 				return false
 			}
+			// every create on the way is at a desired ordinal too, not only the pods at the end
+			if cs := rec.Before.Cache.Sets["web"]; cs != nil && cs.Spec.Replicas != nil {
+				des := map[int]bool{}
+				for _, d := range oracle.Desired(*cs.Spec.Replicas, oracle.ParseSlots(cs.Annotations)) {
+					des[int(d)] = true
+				}
+				for _, c := range rec.Calls {
+					if c.Verb != "create" || c.Resource != "pods" {
+						continue
+					}
+					if o, ok := oracle.OrdinalOf("web", c.Name); !ok || !des[o] {
+						rep.Violation("C01", "controller-creates-outside-desired", fmt.Sprintf("%s (%s): %s although the desired ordinals are %v", label, phase, c.ID, oracle.Desired(*cs.Spec.Replicas, oracle.ParseSlots(cs.Annotations))), func() interface{} {
+							return map[string]interface{}{"kind": "c01-journey", "case": label, "trace": trace}
+						})
+						return false
+					}
+				}
+			}
 			progressed := len(rec.Writes()) > 0
 			for _, l := range world.EnvProgress(w.S) {
 				world.Apply(w.S, l, 0)
@@ -315,6 +333,27 @@ func c01Journey(rep *explore.Report, w *world.World, r int32, s1, s2 []int32, po
 	}
 	if !settle("with " + fmt.Sprint(s1)) {
 		return
+	}
+	if r2 == r && fmt.Sprint(s1) == fmt.Sprint(s2) && !editTemplate {
+		// no edit: instead every desired pod finishes (Failed, then Succeeded) in turn and is replaced at its own ordinal
+		ref := map[int32]bool{}
+		for _, x := range s1 {
+			ref[x] = true
+		}
+		for _, how := range []string{"fail", "succeed"} {
+			for _, d := range oracle.Desired(r, ref) {
+				name := gen.PodName("web", int(d))
+				if w.S.API.Pods[name] == nil {
+					continue
+				}
+				if err := world.Apply(w.S, how+" "+name, 0); err != nil {
+					continue
+				}
+				if !settle(fmt.Sprintf("after %s %s", how, name)) {
+					return
+				}
+			}
+		}
 	}
 	cur := w.S.API.Sets["web"].DeepCopy()
 	if len(s2) == 0 {
@@ -387,7 +426,7 @@ func init() {
 	register("c01", "desired ordinals: helpers and controller vs reference (bounded-exhaustive inputs)", func([]string) int {
 		thorough := explore.Tier() == "thorough"
 		rep := explore.NewReport("C01", "model_checking")
-		rep.Rule = "bounded-exhaustive inputs: replicas 0..6 (thorough 0..8) x {annotation absent, nil annotation map, 24 malformed/edge values, every subset of {-2..8} with <=4 (thorough <=5) members and int32-extreme sets, each in canonical/permuted/duplicated/whitespace encodings}; every helper compared with the reference model (first r non-negative integers not listed); the real controller run on an empty cluster under Parallel (one reconcile) and OrderedReady (reconcile/kubelet loop to quiescence) for every input with distinct slot sets; plus edit journeys on the real controller: replicas 0..3, slots s1 then s2 over all pairs of subsets of {0..3} with <=2 members (s2 may remove the annotation), with and without a template edit, both policies, each phase run to quiescence, the edit delivered as an update event through the real set handler (which must enqueue the set although an annotation-only edit leaves metadata.generation alone): the pods must end at exactly desired(r, s2); journeys in which the annotation stays (subsets of {0..5} with <=2 members) and replicas moves r -> r2 over 0..4, ending at desired(r2, s); and sets that own a healthy pod named <set>-(2^32+k), which is no member, must still create ordinal k. Non-trivial = the annotation denotes at least one slot."
+		rep.Rule = "bounded-exhaustive inputs: replicas 0..6 (thorough 0..8) x {annotation absent, nil annotation map, 24 malformed/edge values, every subset of {-2..8} with <=4 (thorough <=5) members and int32-extreme sets, each in canonical/permuted/duplicated/whitespace encodings}; every helper compared with the reference model (first r non-negative integers not listed); the real controller run on an empty cluster under Parallel (one reconcile) and OrderedReady (reconcile/kubelet loop to quiescence) for every input with distinct slot sets; plus edit journeys on the real controller: replicas 0..3, slots s1 then s2 over all pairs of subsets of {0..3} with <=2 members (s2 may remove the annotation), with and without a template edit, both policies, each phase run to quiescence, the edit delivered as an update event through the real set handler (which must enqueue the set although an annotation-only edit leaves metadata.generation alone): the pods must end at exactly desired(r, s2); journeys without an edit in which every desired pod in turn goes Failed and Succeeded and must be replaced at its own ordinal; every create of every journey is checked against the desired ordinals of the moment; journeys in which the annotation stays (subsets of {0..5} with <=2 members) and replicas moves r -> r2 over 0..4, ending at desired(r2, s); and sets that own a healthy pod named <set>-(2^32+k), which is no member, must still create ordinal k. Non-trivial = the annotation denotes at least one slot."
 		rep.Assumptions = []string{"for values that are not a JSON list of int32 the reference reads 'no slots' (the annotation codec's own contract)", "replicas near MaxInt32 are out of bound (the reconciler allocates a slice of that length)"}
 		var inputs []c01Input
 		c01Inputs(thorough, func(in c01Input) { inputs = append(inputs, in) })
@@ -461,6 +500,14 @@ func init() {
 							jch <- jb{r, r, s1, s2, pol, t}
 						}
 					}
+				}
+			}
+		}
+		// no edit at all, but every desired pod finishes in turn (slots below desired ordinals make index and ordinal differ)
+		for r := int32(1); r <= 3; r++ {
+			for _, sl := range sub {
+				for _, pol := range []string{"Parallel", "OrderedReady"} {
+					jch <- jb{r, r, sl, sl, pol, false}
 				}
 			}
 		}
